@@ -29,10 +29,16 @@ var baseImpl = map[string]core.Adapter{
 		n, _ := strconv.Atoi(a[1])
 		return dumpStrList(strings.SplitN(core.MustUnHex(a[2]), core.MustUnHex(a[0]), n))
 	},
-	"base-trim":       func(a []string) string { return core.Hex(strings.Trim(core.MustUnHex(a[1]), core.MustUnHex(a[0]))) },
-	"base-trimsuffix": func(a []string) string { return core.Hex(strings.TrimSuffix(core.MustUnHex(a[1]), core.MustUnHex(a[0]))) },
-	"base-index":      func(a []string) string { return strconv.Itoa(strings.Index(core.MustUnHex(a[1]), core.MustUnHex(a[0]))) },
-	"base-lastindex":  func(a []string) string { return strconv.Itoa(strings.LastIndex(core.MustUnHex(a[1]), core.MustUnHex(a[0]))) },
+	"base-trim": func(a []string) string { return core.Hex(strings.Trim(core.MustUnHex(a[1]), core.MustUnHex(a[0]))) },
+	"base-trimsuffix": func(a []string) string {
+		return core.Hex(strings.TrimSuffix(core.MustUnHex(a[1]), core.MustUnHex(a[0])))
+	},
+	"base-index": func(a []string) string {
+		return strconv.Itoa(strings.Index(core.MustUnHex(a[1]), core.MustUnHex(a[0])))
+	},
+	"base-lastindex": func(a []string) string {
+		return strconv.Itoa(strings.LastIndex(core.MustUnHex(a[1]), core.MustUnHex(a[0])))
+	},
 	"base-replace": func(a []string) string {
 		return core.Hex(strings.Replace(core.MustUnHex(a[2]), core.MustUnHex(a[0]), core.MustUnHex(a[1]), -1))
 	},
